@@ -23,7 +23,7 @@ THEOREMS = [
     "Typedpy.C14.abstract_subclass_not_instantiable",
     "Typedpy.C14.falsy_default_not_validated",
     "Typedpy.C14.mutable_class_form_default_accepted",
-    "Typedpy.C14.pep604_union_passes_guard",
+    "Typedpy.C14.fixed_pep604_union_refused",
     "Typedpy.C14.fault_rejected_statement_false",
     "Typedpy.C14.abstractStructure_itself_not_instantiable",
     "Typedpy.C14.constant_required_dropped",
